@@ -16,19 +16,20 @@ MANIFEST = {
                   'parts; bins = trunc(k(S+1)/n) start at 0, end at S+1, are non-decreasing, and every event time lies in exactly one bin '
                   '(existence by an induction lemma, uniqueness from monotonicity) - hence every event in exactly one part. '
                   'Transitions.split assembles the k-th pieces in order (loop invariant). Jumps.split raising for a part without jumps is the '
-                  'recorded finding C19-empty-part; sub-additivity of jump counts is bounded only.',
+                  'recorded finding C19-empty-part; sub-additivity of jump counts: every default jump of a time window is a default jump of the whole history at the '
+                  'shifted frames, and windows that do not overlap give different jumps (lemmas; the counting step |union of disjoint images| <= |whole| is the pigeonhole argument, not mechanised).',
     'level_note': 'Trusted: numpy linspace(dtype=int) = truncation of the real formula, pandas boolean-mask row selection (order-preserving) '
                   'and .copy(), np.array_split (consecutive chunks that concatenate to the input), pairwise/zip, integers unbounded, '
                   'event times in [0, n_states-2] (C03), pyvc itself.',
     'technique': 'deductive: VCs from the real AST of _split_transitions_events (loop invariant on an arbitrary part, heap alias tracked) and '
                  'Transitions.split, induction lemmas on the bin sequence; z3/cvc5; counter-models replayed natively; random stand-in',
 }
-UNITS = ['unit_split_events', 'unit_bins', 'unit_transitions_split']
+UNITS = ['unit_split_events', 'unit_bins', 'unit_transitions_split', 'unit_window_lemmas']
 BOUNDED = ['bounded_split']
 META = {
     'clauses': {'C19.bins': 'P', 'C19.events': 'P', 'C19.states': 'A (array_split) + P (call arguments)', 'C19.parts': 'P',
-                'C19.traj': 'see C15.split', 'C19.jumps': 'known finding C19-empty-part', 'C19.sub': 'B'},
-    'not_decided': ['sum over parts of jump counts <= total (needs the spec lemma DJ(window) subset DJ(whole)): bounded stand-in'],
+                'C19.traj': 'see C15.split', 'C19.jumps': 'known finding C19-empty-part', 'C19.sub': 'P (window lemma, injectivity) + argued counting step + B'},
+    'not_decided': ['the counting step from the injective embedding of the parts\' jumps into the jumps of the whole to the inequality of the counts (pigeonhole) is argued, not mechanised'],
 }
 FN = 'gemdat.transitions._split_transitions_events'
 COLS = ['atom index', 'start site', 'destination site', 'start inner site', 'destination inner site', 'time']
@@ -320,6 +321,35 @@ def unit_transitions_split(tier):
 
 
 # ---------------------------------------------------------------------------------------------------------------
+
+def unit_window_lemmas(tier):
+    """C19.sub: jumps of a part = default jumps DJ of the part's state window (C04.E1); DJ of a window embeds into DJ of the whole."""
+    u = Unit('C19.window_lemmas')
+    I = z3.IntSort()
+    a = z3.Function('a', I, I)
+
+    def DJ(f, lo, hi, t, uu):
+        """(t, uu) is a default jump of the history f restricted to frames [lo, hi)"""
+        v = z3.Int('dv')
+        return z3.And(lo <= t, t < uu, uu < hi, f(t) != -1, f(t + 1) != f(t), f(uu) != -1, f(uu) != f(t),
+                      z3.ForAll([v], z3.Implies(z3.And(t < v, v < uu), f(v) == -1), patterns=[f(v)]))
+
+    def window(ctx):
+        s_, e_, T, t, uu = z3.Ints('s e T t u')
+        ctx.assume(z3.And(0 <= s_, s_ <= e_, e_ <= T))
+        aw = lambda v: a(s_ + v)  # noqa: E731   the part's state array is the slice states[s:e] (C19.states)
+        ctx.assume(DJ(aw, 0, e_ - s_, t, uu))
+        return [('a default jump of the window is a default jump of the whole history at the shifted frames, same origin and destination',
+                 z3.And(DJ(a, 0, T, s_ + t, s_ + uu), a(s_ + t) == aw(t), a(s_ + uu) == aw(uu)))]
+    u.lemma('C19.sub.window-jumps-embed', window)
+
+    def disjoint(ctx):
+        s1, e1, s2, e2, t1, t2 = z3.Ints('s1 e1 s2 e2 t1 t2')
+        ctx.assume(z3.And(0 <= s1, s1 <= e1, e1 <= s2, s2 <= e2, 0 <= t1, t1 < e1 - s1, 0 <= t2, t2 < e2 - s2))
+        return [('jumps of non-overlapping windows start at different frames of the whole (the embedding is injective across parts)', s1 + t1 != s2 + t2)]
+    u.lemma('C19.sub.windows-do-not-share-jumps', disjoint)
+    return u
+
 
 def replay_split_events(inputs):
     import numpy as np
